@@ -37,6 +37,11 @@ void inst(gray8_view_t const& a, gray8_view_t const& b, rgb8_view_t const& c, rg
   (void)extend_boundary(c, 1, boundary_option::extend_constant);
 }
 void inst2(rgb8_view_t const& c, bgr32f_view_t const& x){ detail::kernel_2d<float> k2(3, 1, 1); detail::convolve_2d(c, k2, x); }
+// 2-D kernels: integral taps on 32-bit sources (the product is formed before it reaches the accumulator)
+void inst4(gray32_view_t const& a, gray32s_view_t const& s, gray32f_view_t const& f, gray8_view_t const& g){
+  detail::kernel_2d<int> ki(3, 0, 1); detail::kernel_2d<float> kf(3, 2, 0); detail::kernel_2d_fixed<float, 3> kx(1, 1);
+  detail::convolve_2d(a, ki, f); detail::convolve_2d(s, ki, f); detail::convolve_2d(g, ki, f);
+}
 // exact integer accumulation wider than the source channel (V10): 32-bit channels, integer kernels, 64-bit accumulators; and every channel functor by itself
 void inst3(gray32_view_t const& a, gray32s_view_t const& s, gray32_view_t const& b, gray32s_view_t const& t){
   using acc_t = pixel<std::int64_t, gray_layout_t>;
@@ -121,6 +126,7 @@ def run(rep):
                 rep.violation("V2-kernel", "V2:reverse_kernel", R.fn_where(f), {"assignments": asg, "reverse": rev, "returns": rets})
     rep.floor("obligations:V2", 3)
     kernel_2d_rule(rep, fns)
+    ctor_assertions(rep)
     extend_rule(rep, fns)
     result_type_arithmetic(rep, fns)
     rep.rule("V8 convolve_2d (instantiated rgb8 -> bgr32f): the per-channel calls pair the source and destination channels of the same colour "
@@ -321,6 +327,38 @@ def run(rep):
         else:
             rep.ok("V4-2d", "convolve_2d_impl " + f["full"][-20:], {"reads": len(reads), "writes": wr})
     rep.floor("obligations:V4", 1)
+    # ---- V4b the product of a source channel and a kernel tap
+    from .ast.rules import _TYRANGE, _cty, type_range
+    rep.rule("V4b convolve_2d_impl: the product source channel * kernel tap that is added to the accumulator is computed in a floating-point type, or in an integral type "
+             "that holds the product of the operand types' ranges (uint32 * int is computed in unsigned: 5u * -1 = 4294967291; int32 * int overflows)")
+    seen4 = set()
+    for f in fns:
+        if not f["name"].endswith("detail::convolve_2d_impl") or f.get("body") is None:
+            continue
+        for ca, _ in R.find(f["body"], lambda x: x.get("k") == "CompoundAssign" and x.get("op") == "+="):
+            prods = [b for b, _ in R.find(ca.get("r"), lambda x: x.get("k") == "Binary" and x.get("op") == "*")]
+            for b in prods:
+                ty = _cty(b.get("ctype") or b.get("type"))
+                lt, rt = type_range(b["l"]), type_range(b["r"])
+                lty, rty = _cty((R.strip(b["l"]) or {}).get("ctype") or (R.strip(b["l"]) or {}).get("type")), _cty((R.strip(b["r"]) or {}).get("ctype") or (R.strip(b["r"]) or {}).get("type"))
+                key = "V4b:convolve_2d_impl:product computed in %s" % ty
+                if key in seen4:
+                    continue
+                seen4.add(key)
+                rep.count("obligations:V4b")
+                if ty in ("float", "double", "long double"):
+                    rep.ok("V4b-product-type", key, "floating point")
+                elif ty in _TYRANGE and lt and rt:
+                    cands = [lt[0] * rt[0], lt[0] * rt[1], lt[1] * rt[0], lt[1] * rt[1]]
+                    lo, hi = min(cands), max(cands)
+                    if lo < _TYRANGE[ty][0] or hi > _TYRANGE[ty][1]:
+                        rep.violation("V4b-product-type", key, R.fn_where(f), {"operand ranges": [list(lt), list(rt)], "product range": [lo, hi], "computed in": ty,
+                                                                              "example": "gray32 source 5, kernel_2d<int> tap -1: 5u * -1 is 4294967291 in unsigned, the float accumulator receives 4.29e9 instead of -5"})
+                    else:
+                        rep.ok("V4b-product-type", key, {"product range": [lo, hi]})
+                else:
+                    rep.incon("V4b-product-type", key, {"unrecognised": "product type %s" % ty})
+    rep.floor("obligations:V4b", 1)
     rep.floor("obligations:V3", 14)
 
 
@@ -544,6 +582,59 @@ def extend_rule(rep, fns):
             rep.violation("V7-extend", k, R.fn_where(f0), det)
     rep.floor("obligations:V7", 5)
     rep.floor("obligations:V7b", 2)
+
+
+def ctor_assertions(rep):
+    """V6c: an assertion inside a constructor that reads a data member this constructor leaves at its default member initialiser tests a constant, not the object
+    being built (kernel_2d_adaptor(center_y, center_x) asserted center < size() while square_size was still 0; kernel_2d_fixed assigns it afterwards)."""
+    rep.rule("V6c kernel constructors, assertions enabled: no assertion of a constructor reads (directly or through a member function of the class) a data member that the "
+             "constructor's initialiser list does not set (the member still holds its default initialiser there: the condition is a constant, and for "
+             "`center < size()` with size() == 0 it fails for every argument -- kernel_2d_fixed<T,N>(cy, cx) aborts in every build without NDEBUG)")
+    wd = C.workdir("C15assert")
+    src = os.path.join(wd, "ctor.cpp")
+    open(src, "w").write('#include "vf_common.hpp"\n#include <boost/gil/image_processing/kernel.hpp>\nusing namespace vf;\n'
+                         'void inst(float const* v){ detail::kernel_2d_fixed<float, 3> a(1, 1); detail::kernel_2d_fixed<float, 3> b(v, 0, 0); detail::kernel_2d<float> c(3, 1, 1); detail::kernel_2d<float> d(v, 9, 1, 1);\n'
+                         '  kernel_1d<float> e(3, 1); kernel_1d_fixed<float, 3> f(1); (void)a; (void)b; (void)c; (void)d; (void)e; (void)f; }\n')
+    d = C.astdump(src, os.path.join(wd, "ctor.json"), ["^boost::gil::detail::kernel_(1d|2d)_adaptor::(kernel_(1d|2d)_adaptor|size)$", "^boost::gil::detail::kernel_2d_fixed::kernel_2d_fixed$",
+                                                      "^boost::gil::kernel_(1d|2d)(_fixed)?::kernel_(1d|2d)(_fixed)?$"], defs=["-DBOOSTORG_GIL_VERIF"])     # no NDEBUG
+    fns = d["functions"]
+    by_id = {f.get("id"): f for f in fns}
+
+    def members_read(n, depth=0):
+        out = set()
+        for x, _ in R.find(n, lambda y: y.get("k") == "Member" and y.get("name")):
+            out.add(x["name"])
+        if depth < 2:
+            for c, _ in R.find(n, lambda y: y.get("k") == "Call" and isinstance(y.get("callee"), dict) and y["callee"].get("id") in by_id and y["callee"].get("method")):
+                h = by_id[c["callee"]["id"]]
+                if h.get("body") is not None and "kernel_" in h["name"]:
+                    out |= members_read(h["body"], depth + 1)
+        return out
+    for f in fns:
+        if f.get("body") is None or not re.search(r"kernel_(1d|2d)_adaptor::kernel_(1d|2d)_adaptor$", f["name"]) or (len(f["params"]) == 1 and "&" in f["params"][0]["type"]):
+            continue
+        asserts = [x for x, _ in R.find(f["body"], lambda x: x.get("k") == "Cond" and "__assert_fail" in R.key(x.get("else") or {}))]
+        if not asserts:
+            continue
+        written = set()
+        for i in f.get("inits") or []:
+            if i.get("written") and i.get("member"):
+                written.add(i["member"])
+        fields = {i.get("member") for i in f.get("inits") or [] if i.get("member")}
+        rep.count("obligations:V6c")
+        key = "V6c:%s(%s)" % (re.sub(r"<.*", "", f["name"].split("::")[-1]), ", ".join(p_["name"] for p_ in f["params"]))
+        key += ":" + ("array" if "std::array" in f.get("cls", "") else "vector")
+        stale = []
+        for a in asserts:
+            rd = members_read(a["cond"])
+            st = sorted(m for m in rd if m in fields and m not in written)
+            if st:
+                stale.append({"assertion": R.key(a["cond"])[:100], "reads members left at their default initialiser": st})
+        if stale:
+            rep.violation("V6c-ctor-assert", key, R.fn_where(f), {"assertions": stale, "example": "detail::kernel_2d_fixed<float, 3> k(1, 1) aborts: center_.y < size() with size() == square_size == 0"})
+        else:
+            rep.ok("V6c-ctor-assert", key, {"assertions": len(asserts), "members set by the initialiser list": sorted(written)})
+    rep.floor("obligations:V6c", 2)
 
 
 def kernel_2d_rule(rep, fns):
